@@ -119,7 +119,12 @@ def run_suite(V, wd, programs, configs, prop, checks=("link", "boundary", "resul
             V.add_violation({"prop": "C04", "kind": "job_hang", "job": jid, "class": hang_class(j),
                              "batch": j["batch"], "cfg": j["cfg"]}, replay=j)
             if prop != "C04":
-                V.add_violation({"prop": prop, "kind": "job_hang", "job": jid, "class": hang_class(j)}, replay=j)
+                if hang_class(j) == "other":
+                    V.add_violation({"prop": prop, "kind": "job_hang", "job": jid, "class": "other"}, replay=j)
+                else:
+                    # the open finding F9 (a C04 defect) hit a job of another property's suite: that job says
+                    # nothing about this property; it is counted, not judged
+                    V.coverage["jobs_lost_to_F9"] = V.coverage.get("jobs_lost_to_F9", 0) + 1
         elif not job_ok(r) and not expect_panic:
             stats["panicked"] += 1
             V.add_violation({"prop": prop, "kind": "job_panic", "job": jid,
